@@ -230,14 +230,15 @@ ValidFixed(n, f) == /\ \A j \in 1..Len(f) : f[j] \in 0..(n - 2)
 (* constraints are scale-free (signs, order, counts, unit norm, unit max) or have absolute radii    *)
 (* (simplex, l1 ball), so the feasibility predicates do not change with the units of the data.      *)
 (* float32 only with scales that keep every Gram product inside the float32 range.                  *)
-RunScales == {0, -70, -30, 40}
+RunScales == {0, -70, -30, 40, -1060, 1000}   \* 2^-1060: EVERY entry subnormal (<= ~1e-316); 2^1000: top of the float64 range
 RunDtypes == {"float64", "float32"}
 ValidValues(r) == /\ r.scale \in RunScales /\ r.dtype \in RunDtypes
                   /\ (r.dtype = "float32" => r.scale \in {0, -30})
 \* float32 data of scale 2^-30: products of a few such numbers leave the float32 range, a factor can
 \* underflow to exactly 0 and the unit-norm / unit-max kinds then have no representative (0/0).  In
 \* this regime only, a non-finite returned factor is a numerical break-down without obligation.
-UnderflowRegime(r) == r.dtype = "float32" /\ r.scale < 0
+UnderflowRegime(r) == \/ r.dtype = "float32" /\ r.scale < 0
+                      \/ r.scale <= -1000 \/ r.scale >= 1000      \* float64 at the ends of its range: same rule
 \* parameter shifts for SEQUENCES of decompositions run back to back in one process: the same
 \* keywords, forms and modes with the numeric parameters p, p+2, p+4 in some order -- every member
 \* is judged by ITS OWN specification (nothing may survive from an earlier call)
